@@ -54,6 +54,10 @@ def gen_case(rng):
             a['size'] = max(a['size'], 5.)
         elif mode == 'blocks':
             a['end_level'] = a['start_level']
+            if rng.random() < 0.35 and a['size'] > 0:
+                # start level above / below the end level: every block starts at the one and ends at the other
+                a['start_level'], a['end_level'] = gen.pick(rng, [(a['size'] / 2., 0.), (a['size'] / 2., a['size'] / 4.), (0., a['size'] / 4.)])
+                a['inflow'] = 0.
             a['block_size'] = gen.pick(rng, ['d', '12h', '6h'])
             a.pop('start', None); a.pop('end', None)
         elif mode == 'coarse':
@@ -103,7 +107,34 @@ def check_storage(case, a, snap, x, clock, out, portf_T):
         # and the final level are claimed.
         B = pd.Timedelta(a['block_size']) if a['block_size'] not in ('d',) else pd.Timedelta(days=1)
         lev_full = a.get('start_level', 0.) + np.cumsum(delta)
-        le = lev_full[steps]
+        if a.get('start_level', 0.) != a.get('end_level', 0.):
+            # every block is a storage problem of its own: it starts at the start level and ends at the end level ("the same bounds hold in every block").
+            # Block ends derived independently (asset start + k * block size); only claimed when no daylight-saving switch is near (see below)
+            ext = pd.date_range(start=clock.points[0] - pd.Timedelta(days=2), end=clock.points[-1] + pd.Timedelta(days=1), freq='h')
+            if len({p.utcoffset() for p in ext}) == 1:
+                t0 = clock.points[steps[0]]
+                blk = np.array([int((clock.points[t] - t0) / B) for t in steps])
+                # EAO places a block boundary at every grid point that is the last one <= a boundary time, INCLUDING the window end itself: if the window ends
+                # exactly on a block boundary, the last step forms a block of its own (observed, documented here; with start == end level it only
+                # forbids carrying volume into the last step)
+                t_end = clock.points[steps[-1] + 1] if steps[-1] + 1 < clock.T else clock.points[-1] + (clock.points[-1] - clock.points[-2] if clock.T > 1 else B)
+                if len(steps) > 1 and abs(((t_end - t0) / B) - round((t_end - t0) / B)) < 1e-9:
+                    blk[-1] = blk[-1] + 1
+                okb = True; oke = True; worst = None
+                for bq in np.unique(blk):
+                    S = steps[blk == bq]
+                    lev = a.get('start_level', 0.) + np.cumsum(delta[S])
+                    if lev.min() < -tol or lev.max() > size + tol:
+                        okb = False; worst = [int(bq), float(lev.min()), float(lev.max())]
+                    if abs(lev[-1] - a.get('end_level', 0.)) > tol:
+                        oke = False
+                case.check('storage.level_in_bounds', okb, nonvacuous=moved, **who, blocks=True, per_block=True, worst=worst, size=size)
+                case.check('storage.blocks_return_to_level', oke, nonvacuous=moved, **who, end_level=a.get('end_level', 0.), block_size=a['block_size'], per_block=True)
+            else:
+                case.feature('blocks_near_dst_switch')
+            lev_full = None
+        le = lev_full[steps] if lev_full is not None else None
+    if a.get('block_size') and le is not None:
         case.check('storage.level_in_bounds', bool(le.min() >= -tol and le.max() <= size + tol), nonvacuous=moved, **who, blocks=True, min=float(le.min()), max=float(le.max()), size=size)
         case.check('storage.end_level', abs(lev_full[steps[-1]] - a.get('end_level', 0.)) <= tol, nonvacuous=moved or infl != 0, **who, last_level=float(lev_full[steps[-1]]), end_level=a.get('end_level', 0.))
         ext = pd.date_range(start=clock.points[0] - pd.Timedelta(days=2), end=clock.points[-1] + pd.Timedelta(days=1), freq='h')
@@ -119,7 +150,7 @@ def check_storage(case, a, snap, x, clock, out, portf_T):
             case.check('storage.blocks_return_to_level', ok_r, nonvacuous=moved and len(np.unique(blk)) > 1, **who, worst=worst, end_level=a.get('end_level', 0.), block_size=a['block_size'])
         else:
             case.feature('blocks_near_dst_switch')
-    else:
+    elif not a.get('block_size'):
         lev_full = a.get('start_level', 0.) + np.cumsum(delta)
         le = lev_full[ends]
         case.check('storage.level_in_bounds', bool(le.min() >= -tol and le.max() <= size + tol), nonvacuous=moved, **who,
